@@ -36,6 +36,36 @@ CLAIMED = {
          "out(--unique) must be exactly the first-occurrence filter of out(without) under = on the list of selected values (absent only equals absent), for 0..3 selections over pools rich in equal-but-differently-spelled values.",
          "Trusted: reference equality of the harness; universe restricted as the quantifier says.",
          "DESIGN.md §3 C10"),
+ "C06": ("exploration",
+         "differential property-based testing: generated streams with garbage tokens at every gap x 4 policies x 8 pipelines, compared with the noise-free run of the same pipeline plus placement rules for error: lines",
+         "Noise must not change rows (ignore), must add >= 1 error: line per malformed region on exactly the chosen stream and in the right slot (stdout/stderr), and must stop the run with exactly the rows of the preceding values (panic). A clean stream yields no report under any policy.",
+         "Trusted: the noise-free run as the reference for the rows; error reports are single lines starting with error:.",
+         "DESIGN.md §3 C06"),
+ "C14": ("exploration",
+         "property-based testing with an instrumented endless reader (byte budget oracle, no clock) and a FIFO fed by a counting writer thread",
+         "For every generated streaming pipeline in front of --take and every finite prefix followed by an endless stream of qualifying values, jawk must return Ok with exactly the rows of a finite reference run while pulling fewer bytes than a fixed budget past the value that produced the last row. Liveness turned into a bounded safety check.",
+         "Trusted: the finite reference run for the rows; budget = reference length + 64 KiB (+ pipe and BufReader capacity for the FIFO).",
+         "DESIGN.md §3 C14"),
+ "C16": ("fault_enumeration",
+         "fault injection enumerated over every byte offset of generated inputs and of their fault-free outputs (reads: 7 error kinds, Interrupted and short reads before; writes: short writes and Interrupted before; flush-only failure)",
+         "Per generated (input, policy, pipeline) every read offset and every write offset is tried: never a panic, result Err (never Ok), accepted output is a prefix of the fault-free output and justified by the bytes before the fault; exactly fault_free[..k] accepted for write faults.",
+         "Trusted: a failing descriptor keeps failing; inputs <= 400 bytes.",
+         "DESIGN.md §3 C16"),
+ "C17": ("exploration",
+         "metamorphic property-based testing over deliveries (chunk schedules, stdin vs file, partitions into files at arbitrary offsets) plus an exact model of &index / &index-in-file / &file-name and a containment/contiguity predicate for the reported positions",
+         "All deliveries give identical output; a joint multi-file run equals the concatenation of the single-file runs; indices and file names are exact; every (line, col) pair maps through the line-feed positions to a byte range containing the value's text and contiguous with its neighbour.",
+         "Trusted: ASCII-only content for position checks; temp files under the harness target directory.",
+         "DESIGN.md §3 C17"),
+ "C18": ("exploration",
+         "property-based testing: generated valid configurations (twin must be accepted) x 15 kinds of single corruption in a random option position and argument order; instrumented stdin factory and FIFO watcher detect any I/O before the rejection",
+         "Every corrupted configuration must return Err with empty stdout, the stdin factory never invoked and the input file never opened; the uncorrupted twin must run.",
+         "Trusted: only corruptions that are invalid by the documented grammar are generated (arity table of 30 functions transcribed from the sources).",
+         "DESIGN.md §3 C18"),
+ "C20": ("exploration",
+         "differential property-based testing of the real executable (spawned with pipes, closed pipe, /dev/full) against the in-process library run of the same arguments",
+         "Exit status 0 iff the library run is Ok and all output could be written; stdout/stderr byte-identical to the library's streams on success; non-zero status with a message on stderr on failure; nothing on stdout for invalid configurations.",
+         "Trusted: the in-process run as reference for data; no timing-dependent variant.",
+         "DESIGN.md §3 C20"),
 }
 NOT_YET = "not claimed in this commit: the check is designed in DESIGN.md §3 but not yet built"
 
